@@ -42,6 +42,20 @@ CLAIMED["C17"] = dict(
     technique="Lean 4 theorems over extracted kernel + loop-invariant induction + model/implementation correspondence",
     ref="DESIGN.md §5 C17")
 
+CLAIMED["C16"] = dict(
+    text="Lean 4 proof about the transcription of KTHierarchy.generate_indices/_make_nmp1 for every number of baths and every "
+         "depth: level k holds exactly the multi-indices of total order k, each once (level_complete, level_nodup); the whole "
+         "index set is {n : |n| <= depth}, duplicate free and ordered level by level; lowering-then-raising and raising-then-"
+         "lowering links return to the start, the lowering link is absent iff the entry is 0 and the raising link iff the index "
+         "is at the deepest level. The tables produced by the real methods (hinds, levels, levlengths, nm1, np1, Gamma) are "
+         "compared exactly with the model for baths 1-5 x depths 0-7, and propagate() of hand-parameterised hierarchies agrees "
+         "with the rational model of the right-hand sides + Taylor loop to 1e-15. Trace/Hermiticity of the dynamics, the "
+         "zero-coupling reduction and convergence with depth to exp(-iwt-g(t)) are checked by the oracle (partial: not proved).",
+    note="Lean kernel + standard axioms; hand model validated on generated inputs; KTHierarchy objects for table/dynamics cases are "
+         "allocated with object.__new__ and filled by the class's own methods; convergence with depth is measured only.",
+    technique="Lean 4 inductive proofs over the index generator + exact table correspondence + numeric oracle for dynamics",
+    ref="DESIGN.md §5 C16")
+
 NOT_APPLICABLE = {}
 
 
